@@ -76,6 +76,76 @@ class Pair:
                 "faults": [f["kind"] for f in self.faults]}
 
 
+def entry_variants(ctx, p, rng, want=("path", "padded", "fobj", "override")):
+    """Yield (label, expected, observed) for the same pair reached through
+    the other documented entry points: ZConfig.loadConfig on a path, the
+    same with the text pushed beyond 64 KiB by comment lines, loadConfigFile
+    on a real open file, and a load with command-line overrides (expected =
+    conformance of the text edited as the override list denotes)."""
+    import os
+    from ..gen import overrides as ov
+    try:
+        p.text.encode("utf-8")
+    except UnicodeError:
+        return
+    path = os.path.join(ctx.tmp, "entry.conf")
+    for label in want:
+        if label == "path":
+            outcome.write_text(path, p.text)
+            yield label, p.exp, outcome.load_path(p.schema, path)
+        elif label == "padded":
+            outcome.write_text(path, p.text, pad=rng.choice(
+                [65536 - 40, 65536, 70000, 140000]))
+            yield label, p.exp, outcome.load_path(p.schema, path)
+        elif label == "fobj":
+            outcome.write_text(path, p.text)
+            yield label, p.exp, outcome.load_open_file(p.schema, path)
+        elif label == "override":
+            if p.tree is None or not ov.section_children(p.tree):
+                continue
+            specs, infos = ov.gen_specs(rng, p.res, p.tree)
+            try:
+                edited = texts.render(ov.apply_overrides(p.res, p.tree,
+                                                         specs))
+                exp = refmatch.conform(p.res, edited)
+            except ov.NoSuchSection:
+                exp = ("reject", "match", "override addresses no section")
+            obs = outcome.load_text(p.schema, p.text, overrides=specs)
+            yield "override " + repr(specs), exp, obs
+
+
+def replay_entry(ctx, p, case):
+    """(expected, observed) of a recorded entry-point variant."""
+    import os
+    import random
+    from ..gen import overrides as ov
+    from ..ref import refparse
+    entry = case["entry"]
+    if entry.startswith("override "):
+        import ast
+        specs = ast.literal_eval(entry[len("override "):])
+        ev, out, _ = refparse.parse(p.text)
+        top = texts.mknode()
+        nodes = {0: top}
+        for e in ev:
+            if e[0] == "open":
+                n = texts.mknode(e[3], e[4])
+                nodes[e[1]] = n
+                nodes[e[2]]["items"].append(["s", n])
+            elif e[0] == "key":
+                nodes[e[1]]["items"].append(["k", e[2],
+                                             e[3].replace("$", "$$")])
+        try:
+            edited = texts.render(ov.apply_overrides(p.res, top, specs))
+            exp = refmatch.conform(p.res, edited)
+        except ov.NoSuchSection:
+            exp = ("reject", "match", "override addresses no section")
+        return exp, outcome.load_text(p.schema, p.text, overrides=specs)
+    for lab, exp, obs in entry_variants(ctx, p, random.Random(0), [entry]):
+        return exp, obs
+    return p.exp, p.obs
+
+
 def pairs(ctx, n_random_models, texts_per_model, systematic=True,
           handlers=False, handler_density=None, p_bad_value=0.04,
           fault_plan=None, augment=None):
